@@ -2598,6 +2598,9 @@ int32 parseCertificateRequest(ssl_t *ssl,
         /* Fill in keySelect - we have now checked the data,
            so taking the easy path. */
         keySelect->nCas = nCas;
+        /* A repeated CertificateRequest must not leak the earlier lists */
+        psFree(keySelect->caNames, ssl->hsPool);
+        psFree(keySelect->caNameLens, ssl->hsPool);
         keySelect->caNames = psCalloc(
                 ssl->hsPool,
                 nCas,
